@@ -121,6 +121,9 @@ def run(ctx):
         chk.unrecognised("C06.a", "<anchor> Registry::{new,atomic}", f"found {len(ctors)}")
     for f in ctors:
         ret = strip_sym(Sym(f).local(0))
+        if ret[0] == "call" and any(isinstance(n, str) and n in {c.path for c in ctors if c is not f} for n in (ret[1], ret[3])):
+            chk.ob("C06.a", f.path, True, f"delegates to {strip_generics(ret[1]).split('::')[-1]}(), which is checked", f.loc())
+            continue
         ok = ret[0] == "agg" and "shard_mask" in ret[4]
         detail = ""
         if ok:
